@@ -418,6 +418,20 @@ def run(fx, rep, tier):
         r2_r3_summaries(facts, sub)
         r6_factor(facts, sub)
         r4_base_only(facts, sub)
+        if cfg == "dev":
+            # the operands of + - to are quantity expressions: which unit `2s`, `1 / 2s` or `(3m)^2` carries when it reaches
+            # the commensurability test is decided by the unit rules of * / ^ (C04-R1, C04-R5)
+            from . import c04
+            rep.rule("C02-R7", "the units that + - and `to` compare are the ones the operand expressions denote: a power carries "
+                               "unit^n also for a zero value, a product or quotient with a plain number carries the other side's "
+                               "unit raised to +1 / -1 (shared with C04-R1 and C04-R5)")
+            s2 = type(rep)(rep.prop, rep.tier)
+            c04.r1_pow_unit(facts, s2)
+            c04.r2_r5_mul(facts, s2)
+            for o in s2.obls:
+                if o["rule"] in ("C04-R1", "C04-R5"):
+                    o["rule"] = "C02-R7"
+                    rep.obls.append(o)
         if sub is not rep:
             for o in sub.obls:
                 o["key"] += "[rel]"
